@@ -21,14 +21,20 @@ Proof.
   split; [split; [exact F|rewrite E; exact B]|exact E].
 Qed.
 Lemma ex_mul a b va vb : ex a va -> ex b vb -> generic_format radix2 fexp (va * vb) -> Rabs (va * vb) <= bpow radix2 1000 ->
-  Rabs va <= bpow radix2 1 -> ex (PrimFloat.mul a b) (va * vb).
+  (Rabs va <= bpow radix2 1 \/ Rabs vb <= bpow radix2 1) -> ex (PrimFloat.mul a b) (va * vb).
 Proof.
-  intros [Ha Ea] [Hb Eb] G B Bs.
-  assert (Ha' : fin 1 a) by (split; [exact (proj1 Ha)|rewrite Ea; exact Bs]).
-  destruct (fin_mul 1 1000 a b Ha' Hb eq_refl) as [[F _] R].
-  assert (E : FR (PrimFloat.mul a b) = va * vb) by (rewrite R, Ea, Eb; apply round_generic; [auto with typeclass_instances|exact G]).
-  split; [split; [exact F|rewrite E; exact B]|exact E].
+  intros [Ha Ea] [Hb Eb] G B [Bs|Bs].
+  - assert (Ha' : fin 1 a) by (split; [exact (proj1 Ha)|rewrite Ea; exact Bs]).
+    destruct (fin_mul 1 1000 a b Ha' Hb eq_refl) as [[F _] R].
+    assert (E : FR (PrimFloat.mul a b) = va * vb) by (rewrite R, Ea, Eb; apply round_generic; [auto with typeclass_instances|exact G]).
+    split; [split; [exact F|rewrite E; exact B]|exact E].
+  - assert (Hb' : fin 1 b) by (split; [exact (proj1 Hb)|rewrite Eb; exact Bs]).
+    destruct (fin_mul 1000 1 a b Ha Hb' eq_refl) as [[F _] R].
+    assert (E : FR (PrimFloat.mul a b) = va * vb) by (rewrite R, Ea, Eb; apply round_generic; [auto with typeclass_instances|exact G]).
+    split; [split; [exact F|rewrite E; exact B]|exact E].
 Qed.
+Lemma ex_eq f v w : ex f v -> v = w -> ex f w.
+Proof. intros H <-. exact H. Qed.
 Lemma ex_opp a va : ex a va -> ex (PrimFloat.opp a) (- va).
 Proof. intros [Ha Ea]. destruct (fin_opp 1000 a Ha) as [F E]. split; [exact F|rewrite E, Ea; reflexivity]. Qed.
 Lemma ex_zero : ex zero 0.
@@ -44,67 +50,99 @@ Proof. change 2 with (bpow radix2 1). apply bpow_le. lia. Qed.
 
 Lemma bp1 : bpow radix2 1 = 2.
 Proof. simpl. lra. Qed.
-Ltac side := try (rewrite ?bp1, ?Rabs_R1, ?Rabs_R0; lra).
-Ltac as_value v := match goal with |- ex ?f ?w => replace w with v by ring end.
+
+(* ---- exact evaluation of an expression over primitive floats whose intermediate values are all among 0, 1, -1, +-x, +-eps ---- *)
+Section Exact.
+Variables eps x : PrimFloat.float.
+Hypothesis He : fin 0 eps.
+Hypothesis Hp : 0 < FR eps.
+Hypothesis Hx : fin 1000 x.
+
+Lemma Xe : ex x (FR x). Proof. split; [exact Hx|reflexivity]. Qed.
+Lemma Ee : ex eps (FR eps). Proof. split; [eapply fin_weaken; [exact He|lia]|reflexivity]. Qed.
+Lemma Be : Rabs (FR eps) <= 1. Proof. destruct He as [_ B]. simpl in B. lra. Qed.
+Lemma Bx : Rabs (FR x) <= bpow radix2 1000. Proof. exact (proj2 Hx). Qed.
+
+(* a real expression that is ring-equal to one of the candidate values is representable and small *)
+Lemma cand_fmt v : v = 0 \/ v = 1 \/ v = - (1) \/ v = FR x \/ v = - FR x \/ v = FR eps \/ v = - FR eps -> generic_format radix2 fexp v.
+Proof.
+  intros [->|[->|[->|[->|[->|[->| ->]]]]]].
+  - apply generic_format_0.
+  - rewrite <- (proj2 FR_one). apply fmt_FR.
+  - apply generic_format_opp. rewrite <- (proj2 FR_one). apply fmt_FR.
+  - apply fmt_FR.
+  - apply generic_format_opp, fmt_FR.
+  - apply fmt_FR.
+  - apply generic_format_opp, fmt_FR.
+Qed.
+Lemma cand_bound v : v = 0 \/ v = 1 \/ v = - (1) \/ v = FR x \/ v = - FR x \/ v = FR eps \/ v = - FR eps -> Rabs v <= bpow radix2 1000.
+Proof.
+  pose proof b1000 as B2. pose proof Be as B1. pose proof Bx as B3.
+  intros [->|[->|[->|[->|[->|[->| ->]]]]]]; rewrite ?Rabs_R0, ?Rabs_R1, ?Rabs_Ropp, ?Rabs_R1; lra.
+Qed.
+Lemma cand_small v : v = 0 \/ v = 1 \/ v = - (1) \/ v = FR eps \/ v = - FR eps -> Rabs v <= bpow radix2 1.
+Proof.
+  pose proof Be as B1. rewrite bp1.
+  intros [->|[->|[->|[->| ->]]]]; rewrite ?Rabs_R0, ?Rabs_R1, ?Rabs_Ropp, ?Rabs_R1; lra.
+Qed.
+End Exact.
+
+Ltac cand := first [left; ring | right; left; ring | right; right; left; ring | right; right; right; left; ring
+                   | right; right; right; right; left; ring | right; right; right; right; right; left; ring | right; right; right; right; right; right; ring].
+Ltac cand5 := first [left; ring | right; left; ring | right; right; left; ring | right; right; right; left; ring | right; right; right; right; ring].
+(* ex_tac: |- ex e ?v   for an if-free expression e over x, eps, zero, one, opp *)
+Ltac ex_tac eps x He Hp Hx :=
+  lazymatch goal with
+  | |- ex x _ => exact (Xe x Hx)
+  | |- ex eps _ => exact (Ee eps He)
+  | |- ex zero _ => exact ex_zero
+  | |- ex one _ => exact ex_one
+  | |- ex (PrimFloat.opp ?a) _ => refine (ex_opp a _ _); ex_tac eps x He Hp Hx
+  | |- ex (PrimFloat.add ?a ?b) _ =>
+      refine (ex_add a b _ _ _ _ _ _); [ex_tac eps x He Hp Hx | ex_tac eps x He Hp Hx
+        | apply (cand_fmt eps x); cand | apply (cand_bound eps x He Hx); cand]
+  | |- ex (PrimFloat.mul ?a ?b) _ =>
+      refine (ex_mul a b _ _ _ _ _ _ _); [ex_tac eps x He Hp Hx | ex_tac eps x He Hp Hx
+        | apply (cand_fmt eps x); cand | apply (cand_bound eps x He Hx); cand
+        | first [left; apply (cand_small eps He); cand5 | right; apply (cand_small eps He); cand5]]
+  end.
+
+(* resolve every comparison of the goal (innermost first) with the help of the real facts in the context *)
+Ltac no_if t := lazymatch t with context [if _ then _ else _] => fail | _ => idtac end.
+Ltac ffin_tac x Hx He :=
+  first [exact (proj1 Hx) | exact (proj1 He) | exact (proj1 FR_zero) | exact (proj1 FR_one)
+        | exact (proj1 (proj1 (fin_opp _ _ Hx))) ].
+Ltac norm_FR x Hx := rewrite ?(proj2 FR_zero), ?(proj2 FR_one), ?(proj2 (fin_opp _ x Hx)).
+Ltac resolve_cmp x Hx He :=
+  repeat (match goal with
+  | |- context [PrimFloat.ltb ?a ?b] => no_if a; no_if b;
+      rewrite (ltb_FR a b) by ffin_tac x Hx He; norm_FR x Hx;
+      first [rewrite Rlt_bool_true by lra | rewrite Rlt_bool_false by lra]
+  | |- context [PrimFloat.leb ?a ?b] => no_if a; no_if b;
+      rewrite (leb_FR a b) by ffin_tac x Hx He; norm_FR x Hx;
+      first [rewrite Rle_bool_true by lra | rewrite Rle_bool_false by lra]
+  | |- context [PrimFloat.eqb ?a ?b] => no_if a; no_if b;
+      rewrite (eqb_FR a b) by ffin_tac x Hx He; norm_FR x Hx;
+      first [rewrite Req_bool_true by lra | rewrite Req_bool_false by lra]
+  end; cbv iota).
 
 Theorem fsign_exact eps x : fin 0 eps -> 0 < FR eps -> fin 1000 x ->
   exists v, ex (fsign FOps eps x) v /\ (v = FR x \/ v = FR eps \/ v = - FR eps) /\ FR eps <= Rabs v.
 Proof.
   intros He Hp Hx. cbv [fsign]. unfold_model.
-  pose proof b1000 as B2.
-  assert (Xe : ex x (FR x)) by (split; [exact Hx|reflexivity]).
-  assert (Ee : ex eps (FR eps)) by (split; [eapply fin_weaken; [exact He|lia]|reflexivity]).
-  assert (Be : Rabs (FR eps) <= 1) by (destruct He as [_ B]; simpl in B; lra).
-  assert (Bx : Rabs (FR x) <= bpow radix2 1000) by exact (proj2 Hx).
-  destruct FR_zero as [Fz Ez]. destruct FR_one as [F1 E1].
-  destruct (fin_opp 1000 x Hx) as [Hox Eox].
-  assert (G0 : generic_format radix2 fexp 0) by apply generic_format_0.
-  assert (Gx := fmt_FR x). assert (Ge := fmt_FR eps).
-  assert (Gme : generic_format radix2 fexp (- FR eps)) by (apply generic_format_opp; exact Ge).
-  (* the comparisons, as comparisons of reals *)
-  rewrite (ltb_FR x zero (proj1 Hx) Fz), (ltb_FR zero x Fz (proj1 Hx)), (eqb_FR x zero (proj1 Hx) Fz), Ez.
-  destruct (Rlt_bool_spec (FR x) 0) as [Hneg|Hnn].
-  - (* x < 0 *)
-    rewrite (leb_FR eps (PrimFloat.opp x) (proj1 He) (proj1 Hox)), (ltb_FR (PrimFloat.opp x) eps (proj1 Hox) (proj1 He)), Eox.
-    rewrite (Rlt_bool_false 0 (FR x)) by lra. rewrite (Req_bool_false (FR x) 0) by lra.
-    destruct (Rle_bool_spec (FR eps) (- FR x)) as [Hbig|Hsmall].
-    + rewrite (Rlt_bool_false (- FR x) (FR eps)) by lra.
-      exists (FR x). split; [|split; [left; reflexivity|rewrite Rabs_left by lra; lra]].
-      as_value ((1 * FR x + FR eps * 0) + (FR eps * 0) * (- 1)).
-      apply ex_add; [apply ex_add; [apply ex_mul; [apply ex_one|exact Xe| | | ]|apply ex_mul; [exact Ee|apply ex_zero| | | ]| | ]
-                    |apply ex_mul; [apply ex_mul; [exact Ee|apply ex_zero| | | ]|apply ex_opp, ex_one| | | ]| | ];
-        rewrite ?Rmult_1_l, ?Rmult_0_r, ?Rmult_0_l, ?Rplus_0_r, ?Rabs_R0; try assumption; try lra; side.
-    + rewrite (Rlt_bool_true (- FR x) (FR eps)) by lra.
-      exists (- FR eps). split; [|split; [right; right; reflexivity|rewrite Rabs_Ropp, Rabs_pos_eq by lra; lra]].
-      as_value ((0 * FR x + FR eps * 0) + (FR eps * 1) * (- 1)).
-      apply ex_add; [apply ex_add; [apply ex_mul; [apply ex_zero|exact Xe| | | ]|apply ex_mul; [exact Ee|apply ex_zero| | | ]| | ]
-                    |apply ex_mul; [apply ex_mul; [exact Ee|apply ex_one| | | ]|apply ex_opp, ex_one| | | ]| | ];
-        rewrite ?Rmult_1_r, ?Rmult_0_r, ?Rmult_0_l, ?Rplus_0_r, ?Rplus_0_l, ?Rabs_R0, ?Rabs_Ropp; try assumption; try lra;
-        try (replace (FR eps * -1) with (- FR eps) by ring; rewrite ?Rabs_Ropp; try assumption; lra); side.
-  - (* x >= 0 *)
-    rewrite (leb_FR eps x (proj1 He) (proj1 Hx)), (ltb_FR x eps (proj1 Hx) (proj1 He)).
-    destruct (Rlt_bool_spec 0 (FR x)) as [Hpos|Hz].
-    + rewrite (Req_bool_false (FR x) 0) by lra.
-      destruct (Rle_bool_spec (FR eps) (FR x)) as [Hbig|Hsmall].
-      * rewrite (Rlt_bool_false (FR x) (FR eps)) by lra.
-        exists (FR x). split; [|split; [left; reflexivity|rewrite Rabs_pos_eq by lra; lra]].
-        as_value ((1 * FR x + FR eps * 0) + (FR eps * 0) * 1).
-        apply ex_add; [apply ex_add; [apply ex_mul; [apply ex_one|exact Xe| | | ]|apply ex_mul; [exact Ee|apply ex_zero| | | ]| | ]
-                      |apply ex_mul; [apply ex_mul; [exact Ee|apply ex_zero| | | ]|apply ex_one| | | ]| | ];
-          rewrite ?Rmult_1_l, ?Rmult_0_r, ?Rmult_0_l, ?Rplus_0_r, ?Rabs_R0; try assumption; try lra; side.
-      * rewrite (Rlt_bool_true (FR x) (FR eps)) by lra.
-        exists (FR eps). split; [|split; [right; left; reflexivity|rewrite Rabs_pos_eq by lra; lra]].
-        as_value ((0 * FR x + FR eps * 0) + (FR eps * 1) * 1).
-        apply ex_add; [apply ex_add; [apply ex_mul; [apply ex_zero|exact Xe| | | ]|apply ex_mul; [exact Ee|apply ex_zero| | | ]| | ]
-                      |apply ex_mul; [apply ex_mul; [exact Ee|apply ex_one| | | ]|apply ex_one| | | ]| | ];
-          rewrite ?Rmult_1_r, ?Rmult_0_r, ?Rmult_0_l, ?Rplus_0_r, ?Rplus_0_l, ?Rabs_R0; try assumption; try lra; side.
-    + assert (X0 : FR x = 0) by lra. rewrite X0 in *.
-      rewrite Req_bool_true by reflexivity. rewrite (Rle_bool_false (FR eps) 0) by lra. rewrite (Rlt_bool_true 0 (FR eps)) by lra.
-      exists (FR eps). split; [|split; [right; left; reflexivity|rewrite Rabs_pos_eq by lra; lra]].
-      as_value ((0 * 0 + FR eps * 1) + (FR eps * 1) * 0).
-      apply ex_add; [apply ex_add; [apply ex_mul; [apply ex_zero|exact Xe| | | ]|apply ex_mul; [exact Ee|apply ex_one| | | ]| | ]
-                    |apply ex_mul; [apply ex_mul; [exact Ee|apply ex_one| | | ]|apply ex_zero| | | ]| | ];
-        rewrite ?Rmult_1_r, ?Rmult_0_r, ?Rmult_0_l, ?Rplus_0_r, ?Rplus_0_l, ?Rabs_R0; try assumption; try lra; side.
+  destruct (Rtotal_order (FR x) 0) as [Hneg|[Hz|Hpos]].
+  - destruct (Rle_or_lt (FR eps) (- FR x)) as [Hbig|Hsmall].
+    + exists (FR x). split; [|split; [left; reflexivity|rewrite Rabs_left by lra; lra]].
+      resolve_cmp x Hx He. eapply ex_eq; [ex_tac eps x He Hp Hx|ring].
+    + exists (- FR eps). split; [|split; [right; right; reflexivity|rewrite Rabs_Ropp, Rabs_pos_eq by lra; lra]].
+      resolve_cmp x Hx He. eapply ex_eq; [ex_tac eps x He Hp Hx|ring].
+  - exists (FR eps). split; [|split; [right; left; reflexivity|rewrite Rabs_pos_eq by lra; lra]].
+    resolve_cmp x Hx He. eapply ex_eq; [ex_tac eps x He Hp Hx|rewrite ?Hz; ring].
+  - destruct (Rle_or_lt (FR eps) (FR x)) as [Hbig|Hsmall].
+    + exists (FR x). split; [|split; [left; reflexivity|rewrite Rabs_pos_eq by lra; lra]].
+      resolve_cmp x Hx He. eapply ex_eq; [ex_tac eps x He Hp Hx|ring].
+    + exists (FR eps). split; [|split; [right; left; reflexivity|rewrite Rabs_pos_eq by lra; lra]].
+      resolve_cmp x Hx He. eapply ex_eq; [ex_tac eps x He Hp Hx|ring].
 Qed.
 
 (* the gradient ratio a / _fsign(x): finite, and of magnitude <= 2^(k+100) for |a| <= 2^k, whatever x (zero, tiny, huge) *)
